@@ -2,11 +2,18 @@
   C07 — Canonical JSON follows its specification.
 
   Only property theorems live here (helper lemmas: Proofs/C14n*.lean).  Every
-  theorem is about the *model* of /repo/c14n (Model/C14n.lean: the reader on
-  decoder tokens, Object.Sort, the MarshalJSON methods with the `first` flags,
-  encodeString with the extracted safeSet/hex tables, Float.MarshalJSON's
-  byte surgery on strconv's output) and relates it to the README rules
-  (Spec/C07.lean: `norm`, `text`, the number-form recognisers).
+  theorem is about the *model* of /repo/c14n (Model/C14n.lean: checkEncoding on
+  the raw text, the reader on decoder tokens, Object.Sort, the MarshalJSON
+  methods with the `first` flags, encodeString with the extracted safeSet/hex
+  tables, Float.MarshalJSON's byte surgery on strconv's output) and relates it
+  to the README rules (Spec/C07.lean: `norm`, `text`, the number-form
+  recognisers).
+
+  Strings are lists of code points.  A string the decoder yields is a sequence
+  of Unicode scalar values (`isScalar`; U+FFFD is one of them); a list with
+  another element stands for a Go string that is not valid UTF-8, which only a
+  direct user of the object model can hand to encodeString (`cleanS`/`cleanJ`
+  = every string is a sequence of scalar values).
 
   Texts are code-point lists (`Chars`); `canon` is their UTF-8 encoding.
   `v.wf` says every float leaf carries well-formed shortest digits (what
@@ -17,14 +24,16 @@ import GoblVerif.Proofs.C14nModel
 import GoblVerif.Proofs.C14nNorm
 import GoblVerif.Proofs.C14nForm
 import GoblVerif.Proofs.C14nReader
+import GoblVerif.Proofs.C14nEncoding
 
 namespace GoblVerif.Props.C07
 open GoblVerif GoblVerif.Spec.C07 GoblVerif.C14n GoblVerif.Proofs.C14n
 
-/-! ## the model computes the README text of the logical content, or refuses -/
+/-! ## the model computes the README text of the logical content -/
 
-/-- CanonicalJSON (model) = README text of `norm v` (null members dropped, members sorted),
-    unless a string or key that survives contains U+FFFD, in which case it is refused -/
+/-- CanonicalJSON (model) = README text of `norm v` (null members dropped, members sorted) for
+    every value whose surviving strings and keys are Unicode strings; a string with invalid
+    encoding is refused (README rule 8.3) -/
 theorem canon_meets_spec (v : J) (hw : v.wf = true) :
     canonChars v = if cleanJ (norm v) then some (text (norm v)) else none :=
   canonChars_eq v (by rw [wf_sortJ]; exact hw)
@@ -33,11 +42,36 @@ theorem canon_bytes (v : J) (hw : v.wf = true) :
     canon v = if cleanJ (norm v) then some (utf8s (text (norm v))) else none := by
   unfold canon; rw [canon_meets_spec v hw]; split <;> rfl
 
-/-- the only rejected values: a surviving string or key contains U+FFFD (the
-    code cannot tell a genuine U+FFFD from the decoder's replacement of invalid
-    UTF-8; recorded as a known finding) -/
-theorem canon_rejects_iff (v : J) (hw : v.wf = true) : canon v = none ↔ cleanJ (norm v) = false := by
-  rw [canon_bytes v hw]; cases cleanJ (norm v) <;> simp
+/-- every value the decoder can yield — all strings and keys are sequences of scalar values,
+    U+FFFD included — has a canonical form, and it is the README text of its content -/
+theorem canon_total (v : J) (hw : v.wf = true) (hs : strsHave (fun c => !isScalar c) v = false) :
+    canon v = some (utf8s (text (norm v))) := by
+  rw [canon_bytes v hw, cleanJ_norm_of_scalar v hs]; rfl
+
+/-- the only refused values: a surviving string or key is not a sequence of scalar values
+    (it has no UTF-8 encoding).  U+FFFD does not make a string unclean. -/
+theorem canon_rejects_iff (v : J) (hw : v.wf = true) :
+    canon v = none ↔ strsHave (fun c => !isScalar c) (norm v) = true := by
+  rw [canon_bytes v hw, cleanJ_eq]; cases strsHave (fun c => !isScalar c) (norm v) <;> simp
+
+/-- the replacement character is an ordinary character: as a value and as a key -/
+theorem replacement_character_kept (pre post : Str) (hp : pre.all isScalar = true) (hq : post.all isScalar = true) :
+    encodeString (pre ++ 0xFFFD :: post) = some (strText (pre ++ 0xFFFD :: post)) ∧
+    (escS (pre ++ 0xFFFD :: post) = escS pre ++ 0xFFFD :: escS post) := by
+  constructor
+  · rw [encodeString_eq]
+    have : cleanS (pre ++ 0xFFFD :: post) = true := by
+      have h : isScalar 0xFFFD = true := by decide
+      simp [cleanS, List.all_append, h] at hp hq ⊢
+      exact ⟨hp, hq⟩
+    rw [this]; rfl
+  · simp [escS, escChar]
+
+example : canonChars (.str [0xFFFD]) = some [0x22, 0xFFFD, 0x22] := by decide
+example : canon (.obj (.cons [0xFFFD] (.str [0x61, 0xFFFD]) .nil)) =
+    some [0x7B, 0x22, 0xEF, 0xBF, 0xBD, 0x22, 0x3A, 0x22, 0x61, 0xEF, 0xBF, 0xBD, 0x22, 0x7D] := by decide
+-- a Go string with undecodable bytes (here: an encoded surrogate) handed to the object model is refused
+example : canonChars (.str [0x61, 0xD800]) = none := by decide
 
 /-! ## independence of member order and of null members -/
 
@@ -145,7 +179,8 @@ theorem no_null_members (v : J) : noNullMembers (norm v) = true := noNull_dropJ 
 
 /-- rule 8: encodeString with the extracted tables writes exactly the README escapes
     (two-character escapes for `"` `\` `\b` `\t` `\n` `\f` `\r`, `\u00XX` upper case for the
-    other controls, everything else literal) — or refuses a string containing U+FFFD -/
+    other controls, everything else literal, U+FFFD like any other character) — or refuses
+    a string that is not a sequence of scalar values (8.3) -/
 theorem escapes_minimal (s : Str) :
     encodeString s = (if cleanS s then some (strText s) else none) ∧
     (∀ c, 0x20 ≤ c → c ≠ 0x22 → c ≠ 0x5C → escChar c = [c]) ∧
@@ -253,12 +288,103 @@ theorem tokenToValue_rejects_iff (l : Lit) :
 
 /-- CanonicalJSON on the raw tokens of the decoder (any sequence it can emit, ending in io.EOF
     or in a decoder error): a text is produced exactly when the tokens are those of one complete
-    value `x`, the input ends there and no surviving string has U+FFFD — and then it is the
-    canonical text of that very `x`; everything else is an error (never a nil in the tree) -/
+    value `x` and the input ends there — and then it is the canonical text of that very `x`;
+    everything else is an error (never a nil in the tree) -/
 theorem raw_reader_total (ts : List RTok) (eof : Bool) (hv : decValid (ts.map cook) = true) :
     (∀ cs, canonRaw ts eof = .ok cs ↔ (eof = true ∧ ∃ x, ts = rtoks x ∧ canonChars x = some cs)) ∧
     canonRaw ts eof ≠ .nilval :=
   canonRaw_total ts eof hv
+
+/-! ## the raw text: invalid encoding is rejected before the decoder can replace it by U+FFFD -/
+
+/-- CanonicalJSON on a text `raw` for which the decoder yields the tokens `ts`: a canonical text
+    is produced exactly when checkEncoding accepts `raw`, the tokens are those of one complete
+    value `x` and the input ends there; it is the canonical text of `x` -/
+theorem text_reader_total (raw : Bytes) (ts : List RTok) (eof : Bool) (hv : decValid (ts.map cook) = true) :
+    (∀ cs, canonText raw ts eof = .ok cs ↔
+      (checkEncoding raw = true ∧ eof = true ∧ ∃ x, ts = rtoks x ∧ canonChars x = some cs)) ∧
+    canonText raw ts eof ≠ .nilval := by
+  obtain ⟨h1, h2⟩ := canonRaw_total ts eof hv
+  unfold canonText
+  cases hc : checkEncoding raw with
+  | true => simp only [if_true, true_and]; exact ⟨h1, h2⟩
+  | false => simp
+
+/-- whatever tokens the decoder makes of it (it would put U+FFFD where it cannot decode), a text
+    that checkEncoding refuses is an error -/
+theorem invalid_encoding_rejected (raw : Bytes) (ts : List RTok) (eof : Bool) (h : checkEncoding raw = false) :
+    canonText raw ts eof = .err := by
+  unfold canonText; simp [h]
+
+/-- the first half of checkEncoding: `utf8.Valid` accepts exactly the UTF-8 encodings of
+    sequences of Unicode scalar values (no overlong form, no encoded surrogate, nothing beyond
+    U+10FFFF, no truncated sequence) -/
+theorem utf8Valid_iff (b : Bytes) :
+    utf8Valid b = true ↔ ∃ cs : Chars, cs.all isScalar = true ∧ b = utf8s cs := by
+  constructor
+  · exact utf8Valid_decodes b.length b (Nat.le_refl _)
+  · rintro ⟨cs, hs, rfl⟩; exact utf8Valid_utf8s cs hs
+
+/-- the second half: wherever the scan stands at the start of an escape (`pre` is any text it
+    passes over, e.g. canonical text or proper pairs), the escape of a surrogate that is not a
+    high half followed at once by the escape of a low half makes checkEncoding fail -/
+theorem unpaired_surrogate_rejected (pre tail : Bytes) (hp : Passes pre) (r : Nat)
+    (hr : escapedUnit tail = some r) (hs : 0xD800 ≤ r ∧ r < 0xE000)
+    (hno : pairOK (some r) (escapedUnit (tail.drop 6)) = false) :
+    checkEncoding (pre ++ tail) = false := by
+  unfold checkEncoding; rw [unpaired_rejected pre tail hp r hr hs hno]; simp
+
+/-- … while the escapes of a high and a low surrogate in a row are passed over -/
+theorem surrogate_pair_passes (a b c d a' b' c' d' : Nat)
+    (h : pairOK (escapedUnit [0x5C, 0x75, a, b, c, d]) (escapedUnit [0x5C, 0x75, a', b', c', d']) = true) :
+    Passes [0x5C, 0x75, a, b, c, d, 0x5C, 0x75, a', b', c', d'] :=
+  pair_passes a b c d a' b' c' d' h
+
+/-- canonical output is accepted by checkEncoding: valid UTF-8, and the only `\u` escapes in it
+    are `\u00XX` -/
+theorem canonical_text_passes_check (v : J) (hw : v.wf = true) (b : Bytes) (hb : canon v = some b) :
+    checkEncoding b = true := by
+  rw [canon_bytes v hw] at hb
+  split at hb
+  · rename_i hc
+    simp only [Option.some.injEq] at hb; subst hb
+    exact checkEncoding_text (norm v) (wf_norm v hw) hc
+  · cases hb
+
+/-- the canonical form canonicalises to itself, as a text: given back to CanonicalJSON (the
+    decoder reads the tokens of the content from it) it passes checkEncoding and comes out unchanged -/
+theorem canon_text_idem (v : J) (hw : v.wf = true) (cs : Chars) (hc : canonChars v = some cs) :
+    canonText (utf8s cs) (rtoks (norm v)) true = .ok cs := by
+  have hb : canon v = some (utf8s cs) := by unfold canon; rw [hc]; rfl
+  have hgood := canonical_text_passes_check v hw _ hb
+  unfold canonText; rw [hgood]; simp only [if_true]
+  have : canonChars (norm v) = some cs := by rw [canonChars_norm]; exact hc
+  unfold canonRaw canonTokens
+  rw [cook_rtoks, unmarshal_gtoks]
+  unfold canonChars at this
+  simp [this]
+
+-- "\ud800" (a lone high surrogate), "\udc00" (a lone low one), "\ud800\u0041", "\ud800x": rejected
+example : checkEncoding [0x22, 0x5C, 0x75, 0x64, 0x38, 0x30, 0x30, 0x22] = false := by decide
+example : checkEncoding [0x22, 0x5C, 0x75, 0x44, 0x43, 0x30, 0x30, 0x22] = false := by decide
+example : checkEncoding [0x22, 0x5C, 0x75, 0x64, 0x38, 0x30, 0x30, 0x5C, 0x75, 0x30, 0x30, 0x34, 0x31, 0x22] = false := by
+  decide
+example : checkEncoding [0x22, 0x5C, 0x75, 0x64, 0x38, 0x30, 0x30, 0x78, 0x22] = false := by decide
+-- "\ud83d\ude00" (a pair), "\\ud800" (an escaped backslash, then plain text), "\ufffd": accepted
+example : checkEncoding [0x22, 0x5C, 0x75, 0x64, 0x38, 0x33, 0x64, 0x5C, 0x75, 0x64, 0x65, 0x30, 0x30, 0x22] = true := by
+  decide
+example : checkEncoding [0x22, 0x5C, 0x5C, 0x75, 0x64, 0x38, 0x30, 0x30, 0x22] = true := by decide
+example : checkEncoding [0x22, 0x5C, 0x75, 0x66, 0x66, 0x66, 0x64, 0x22] = true := by decide
+-- … but an escaped backslash followed by a lone surrogate escape is rejected
+example : checkEncoding [0x22, 0x5C, 0x5C, 0x5C, 0x75, 0x64, 0x38, 0x30, 0x30, 0x22] = false := by decide
+-- bytes: EF BF BD (U+FFFD itself) accepted; FF, C0 AF (overlong), ED A0 80 (a surrogate), a truncated sequence: rejected
+example : checkEncoding [0x22, 0xEF, 0xBF, 0xBD, 0x22] = true ∧ checkEncoding [0x22, 0xFF, 0x22] = false ∧
+    checkEncoding [0x22, 0xC0, 0xAF, 0x22] = false ∧ checkEncoding [0x22, 0xED, 0xA0, 0x80, 0x22] = false ∧
+    checkEncoding [0x22, 0xEF, 0xBF] = false := by decide
+-- and with rejected encoding nothing is produced, whatever the tokens
+example : (match canonText [0x22, 0xFF, 0x22] [.lit (.str [0xFFFD])] true with | .err => true | _ => false) = true ∧
+    (match canonText [0x22, 0xEF, 0xBF, 0xBD, 0x22] [.lit (.str [0xFFFD])] true with
+      | .ok cs => cs == [0x22, 0xFFFD, 0x22] | _ => false) = true := by decide
 
 /-- a number beyond float64 anywhere in the input (top level, array element, member value,
     after the top-level value) makes CanonicalJSON fail: it is not read as null or as anything else -/
@@ -305,7 +431,28 @@ theorem default_escape_is_u00XX : defaultEscapeWrites = ["`u00`", "hex[b>>4]", "
 theorem ascii_escapes_are_readme :
     ∀ c, c < 128 → (if C14n.safe c then [c] else 0x5C :: escapeAscii c) = escChar c :=
   ascii_escape_table
-theorem rejects_on_RuneError : encodeString_utf8 = ["RuneSelf", "DecodeRuneInString", "RuneError"] := by decide
+/-- encodeString refuses a rune only when it is RuneError *and* was decoded from a single byte
+    (undecodable input); U+FFFD itself (size 3) is copied -/
+theorem rejects_undecodable_bytes_only :
+    encodeString_utf8 = ["RuneSelf", "DecodeRuneInString", "RuneError"] ∧
+    encodeString_reject_conds = ["c==utf8.RuneError&&size==1"] := by decide
+/-- UnmarshalJSON reads the input, checks its encoding and only then creates the decoder -/
+theorem encoding_checked_before_decoding :
+    calls_UnmarshalJSON = ["ReadAll", "checkEncoding", "NewDecoder", "NewReader", "UseNumber", "handleNextToken",
+      "New", "Token", "New"] := by decide
+/-- checkEncoding: utf8.Valid on the whole text, then the scan for backslashes with the two
+    index moves (`i++`, `i+=6`), escapedUnit at the backslash and six bytes further on -/
+theorem checkEncoding_shape :
+    calls_checkEncoding = ["Valid", "New", "len", "escapedUnit", "IsSurrogate", "DecodeRune", "escapedUnit", "New"] ∧
+    conds_checkEncoding = ["!utf8.Valid(data)", "data[i]!='\\\\'", "!utf16.IsSurrogate(r)",
+      "utf16.DecodeRune(r,escapedUnit(data[i+5:]))==unicode.ReplacementChar"] ∧
+    steps_checkEncoding = ["i++", "i++", "i+=6"] ∧
+    slices_checkEncoding = ["data[i:]", "data[i+5:]"] := by decide
+/-- escapedUnit: six bytes, `\\` `u`, four hexadecimal digits of either case, most significant first -/
+theorem escapedUnit_shape :
+    conds_escapedUnit = ["len(data)<6||data[0]!='\\\\'||data[1]!='u'", "'0'<=c&&c<='9'", "'a'<=c&&c<='f'", "'A'<=c&&c<='F'"] ∧
+    steps_escapedUnit = ["c-='0'", "c-='a'-10", "c-='A'-10", "r=r<<4|rune(c)"] ∧
+    slices_escapedUnit = ["data[2:6]"] := by decide
 theorem integer_uses_FormatInt_base10 : strconv_Integer_MarshalJSON = ["strconv.FormatInt(int64(i),10)"] := by decide
 theorem float_uses_AppendFloat_E_shortest :
     strconv_Float_MarshalJSON = ["strconv.AppendFloat(num,float64(f),'E',-1,64)"] := by decide
@@ -313,7 +460,8 @@ theorem sort_is_stable : sort_Object_Sort = ["SliceStable"] := by decide
 theorem literals : lits_Null_MarshalJSON = ["`null`"] ∧ lits_Bool_MarshalJSON = ["`true`", "`false`"] := by decide
 theorem eof_is_an_error : io_handleNextToken = ["EOF", "ErrUnexpectedEOF"] := by decide
 theorem top_level_checks : errors_UnmarshalJSON =
-    ["\"unexpected end of JSON input\"", "\"unexpected data after top-level value\""] ∧ io_UnmarshalJSON = ["EOF"] := by
+    ["\"unexpected end of JSON input\"", "\"unexpected data after top-level value\""] ∧
+    io_UnmarshalJSON = ["ReadAll", "EOF"] := by
   decide
 theorem reader_shape :
     calls_handleNextToken = ["Token", "handleObject", "handleArray", "tokenToValue"] ∧
